@@ -114,8 +114,14 @@ CHECKS = {
                 "matching clause means what the specification says for every message (path_namespace_semantics, arg_plain/namespace/path_semantics, "
                 "unicast_needs_eavesdrop). The model is tied to the C parser and matcher by differential runs over generated rule texts (valid, "
                 "mutated, quoted/escaped, 0..64 args) and generated messages, under ASan/UBSan; F5 (argNpath over-read on empty string) and F13 "
-                "(match_rule_equal ignoring path for path_namespace rules) were found by this check and repaired in /repo.",
-        "note": "Partial: unit level only. End-to-end delivery (rule pools per message type, recipient de-duplication, removal of the most recent equal rule, cleanup at disconnect) is compared by the bus-level check when present; not yet proved.",
+                "(match_rule_equal ignoring path for path_namespace rules) were found by this check and repaired in /repo."
+                " At bus level (Dbus.Props.C07Bus) it is proved for every bus state, sender and signal that a connection receives a copy of a "
+                "destination-less message iff it is connected, is not a monitor, holds at least one rule matching it and the policy gate admits "
+                "the pair, and then exactly one copy (recipient_iff, recipients_nodup, broadcast_reaches_exactly_the_matching); a disconnected "
+                "connection receives nothing (disconnected_gets_nothing). " + BUS_TIE +
+                "The C07 histories use rule pools over every key incl. sender/destination naming live, past, future and textually extended "
+                "unique names, with an oracle (own parser + matcher in Python, independent of the Lean model) for who must receive each broadcast.",
+        "note": "Removal of the most recent equal rule and the cleanup of rules at disconnect (incl. the recorded GC quirk) are compared against the daemon on every history, not stated as separate theorems.",
     },
     "C17": {
         "text": "Proved in Lean over every history of sends, peer messages (replies, duplicates, stray reply serials), reads, single dispatch steps, "
